@@ -75,6 +75,34 @@ fn recover_case<P: G>(cfg: Cfg, name: String, wit: Wit, ctx: Ctx, rng: &'static 
                 _ => res.violate(mode_name(mode), format!("verification with the prover's seed failed: {}", obs.describe())),
             }
         }
+        // the same statement reached through the other ways a statement value comes to be: a clone, and clone_from over a
+        // statement that had no seed / another seed (the verifier's copy of a statement is rarely the object the prover used)
+        if plain_ok {
+            let mut copies: Vec<(&str, RangeStatement<P>)> = vec![("clone", built.statement.clone())];
+            for (nm, seed) in [("clone_from-over-unseeded", None), ("clone_from-over-other-seed", Some(seed_scalar(77)))] {
+                if let Ok(mut dst) = restate(&built, built.commitments.clone(), wit.promises.clone(), seed) {
+                    dst.clone_from(&built.statement);
+                    copies.push((nm, dst));
+                }
+            }
+            for (nm, st) in copies {
+                for mode in [VerifyAction::RecoverOnly, VerifyAction::RecoverAndVerify] {
+                    let obs = verify_observed_one(&st, &proof, &ctx, mode);
+                    res.executions += 1;
+                    res.validated += 1;
+                    match &obs.result {
+                        Some(Ok(m)) if m.len() == 1 && m[0] == Some(truth.clone()) => {},
+                        _ => {
+                            res.outcome = "wrong-mask".into();
+                            res.violate(
+                                format!("{}/{}", nm, mode_name(mode)),
+                                format!("recovery through a {} of the seeded statement does not return the blinding vector: {}", nm, obs.describe()),
+                            );
+                        },
+                    }
+                }
+            }
+        }
         // reference recovery agrees
         if let Some(rp) = ref_proof_of(&proof) {
             let rst = ref_statement(&built.statement);
